@@ -768,7 +768,49 @@ def b_registered_constants(tier):
 
 
 def bounded(tier, seed, procs):
-    return [b_walk(tier), b_identity(tier), b_combine(tier), b_dispatch(tier), b_unhandled(tier), b_callback(tier), b_collector_histories(tier), b_registered_constants(tier)]
+    return [b_walk(tier), b_identity(tier), b_combine(tier), b_dispatch(tier), b_unhandled(tier), b_callback(tier), b_collector_histories(tier), b_registered_constants(tier), b_warnings_as_errors(tier)]
+
+
+def b_warnings_as_errors(tier):
+    """The stock traversals of well-formed trees under `-W error`: they go through no deprecated path of the library itself."""
+    import warnings as _w
+    import pymbolic.primitives as p
+    from immutabledict import immutabledict
+    from pymbolic.mapper import Collector, IdentityMapper, WalkMapper
+    from pymbolic.mapper.dependency import DependencyMapper
+    b = BoundedRun("warnings-as-errors", rule="with every warning turned into an error: IdentityMapper, an identity mapper renaming one variable (so that every node above it is rebuilt), "
+                   "WalkMapper and DependencyMapper on the depth-1 trees of every node class and on calls with keyword arguments, wrappers, derivatives, substitutions: the result "
+                   "they give without the filter, no warning raised (the trees themselves are built outside the filter)", bound="~480 trees x 4 mappers",
+                   functions=["IdentityMapper.map_*", "WalkMapper.map_*", "Collector.map_*"])
+    x, y, f = trees.X, trees.Y, trees.F
+
+    class Ren(IdentityMapper):
+        def map_variable(self, e, *a, **k):
+            return p.Variable(e.name + "_r") if e.name == "x" else e
+    with _w.catch_warnings():
+        _w.simplefilter("ignore")
+        dom = trees.depth1(trees.ALL_EVAL + [p.Slice], [x, y, 2, -1]) + [
+            p.CallWithKwargs(f, (y,), immutabledict({"k": x})), p.CallWithKwargs(f, (x,), immutabledict({"k": y, "l": 2})), p.CallWithKwargs(x, (), immutabledict({"k": y})),
+            p.CommonSubexpression(p.Sum((x, 1)), "p"), p.CommonSubexpression(p.Product((x, y)), None, p.cse_scope.GLOBAL), p.Derivative(p.Sum((x, y)), ("x",)), p.Substitution(x, ("x",), (y,)),
+            p.Sum((p.CallWithKwargs(f, (1,), immutabledict({"k": p.Product((x, 2))})), y))]
+    for e in dom:
+        for name, mk in (("IdentityMapper", IdentityMapper), ("renaming", Ren), ("WalkMapper", WalkMapper), ("DependencyMapper", DependencyMapper)):
+            with _w.catch_warnings():
+                _w.simplefilter("ignore")
+                ref = outcome.run(lambda: mk()(e))
+            with _w.catch_warnings():
+                _w.simplefilter("error")
+                try:
+                    got = ("val", mk()(e))
+                except Warning as w_:
+                    got = ("exc", type(w_), (str(w_)[:100],))
+                except Exception as ex:  # noqa: BLE001
+                    got = ("exc", type(ex), ex.args)
+            b.case((name, repr(e)), sample=dict(mapper=name, expr=repr(e)[:80]))
+            if got[0] != ref[0] or (got[0] == "val" and got[1] != ref[1]) or (got[0] == "exc" and got[1] is not ref[1]):
+                b.fail(Failure("warnings-as-errors", f"mapper={name} root={type(e).__name__} expr={e!r}"[:300], dict(kind="werror", mapper=name, expr=repr(e)), expected=outcome.describe(ref)[:120],
+                               actual=outcome.describe(got)[:160], functions=[f"{name}.{getattr(type(e), 'mapper_method', 'map_foreign')}"]))
+    return b
 
 
 def b_callback(tier):
